@@ -805,7 +805,7 @@ def _w_derived(dw, fn=None):
             return "NAK timer expired"
         if k[0] == "expr" and k[1].startswith("Gt(") and k[1].endswith(", const(0))") and pos and s == frozenset([1]):
             m = re.match(r"^Gt\((\w+), const\(0\)\)$", k[1])
-            if any(str(p_).startswith("self.delayed_nack_timers") for p_ in (k[2] if len(k) > 2 else ())) or (m and _counts_delayed_timers(fn, m.group(1))):
+            if any(str(p_).startswith("self.delayed_nack_timers") for p_ in (k[2] if len(k) > 2 else ())) or "self.delayed_nack_timers" in k[1] or (m and _counts_delayed_timers(fn, m.group(1))):
                 return "expired delayed-NAK timers counted"
     return None
 
@@ -816,7 +816,7 @@ def _track_u1(key):
     if key[0] == "call":
         return key[1].endswith("VecDeque::is_empty") or key[1].endswith("Counter::timeout_occurred")
     if key[0] == "expr":
-        return key[1].startswith("Gt(") and key[1].endswith(", const(0))") and (re.match(r"^Gt\(\w+, const\(0\)\)$", key[1]) is not None or any(str(p_).startswith("self.delayed_nack_timers") for p_ in (key[2] if len(key) > 2 else ())))
+        return key[1].startswith("Gt(") and key[1].endswith(", const(0))") and (re.match(r"^Gt\(\w+, const\(0\)\)$", key[1]) is not None or "self.delayed_nack_timers" in key[1] or any(str(p_).startswith("self.delayed_nack_timers") for p_ in (key[2] if len(key) > 2 else ())))
     if key[0] == "dexpr":
         return key[1] == "Option::take(&mut self.prompt)"
     return False
